@@ -438,9 +438,8 @@ Lemma page_offset_at {A} (l : list A) (size : N) k from :
 Proof.
   intros Hp Hk Hs Hfit. unfold int64_fits in Hfit. apply Z.ltb_lt in Hfit.
   unfold page_offset. rewrite Hp.
-  assert (E1 : (Z.of_nat k <=? Z.of_nat (length l))%Z = true) by (apply Z.leb_le; lia).
   assert (E2 : (Z.of_nat k <? 0)%Z = false) by (apply Z.ltb_ge; lia).
-  rewrite E1, E2. cbn [andb]. rewrite Nat2Z.id, skipn_length.
+  rewrite E2. cbv zeta. rewrite Z.min_l by lia. rewrite Nat2Z.id, skipn_length.
   apply N.eqb_neq in Hs. rewrite Hs. cbn [negb andb].
   destruct (k + N.to_nat size <? length l)%nat eqn:E.
   - apply Nat.ltb_lt in E.
@@ -1147,9 +1146,9 @@ Lemma page_offset_size {A} (l : list A) size from items next :
   size <> 0 -> page_offset l size from = Page items next -> (length items <= N.to_nat size)%nat.
 Proof.
   intros Hs. unfold page_offset. destruct (parse_from from) as [z|]; [|discriminate].
-  destruct ((z <=? Z.of_nat (length l))%Z && (z <? 0)%Z); [discriminate|].
+  destruct (z <? 0)%Z; [discriminate|]. cbv zeta.
   apply N.eqb_neq in Hs. rewrite Hs. cbn [negb andb].
-  set (m := if (z <=? Z.of_nat (length l))%Z then skipn (Z.to_nat z) l else l).
+  set (m := skipn (Z.to_nat (Z.min z (Z.of_nat (length l)))) l).
   destruct (N.to_nat size <? length m)%nat eqn:E; intro H; inversion H; subst.
   - rewrite firstn_length. lia.
   - apply Nat.ltb_ge in E. exact E.
@@ -1311,61 +1310,44 @@ Qed.
 Definition offset_sound {A} (l : list A) (size : N) (from : bytes) : Prop :=
   match page_offset l size from with
   | Page items _ => exists z n, parse_from from = Some z /\ items = firstn n (skipn (Z.to_nat z) l)
-  | Rejected _ => parse_from from = None
+  | Rejected _ => parse_from from = None \/ exists z, parse_from from = Some z /\ (z < 0)%Z
   | Panic => False
   end.
 
-Theorem offset_sound_iff {A} (l : list A) size from : size <> 0 ->
-  offset_sound l size from <-> offset_finding (length l) from = None.
+(* memory ReadPage since fix 3cab6a7: EVERY byte string is rejected or read as a lower bound *)
+Theorem malformed_token_rejected_memory {A} (l : list A) size from : offset_sound l size from.
 Proof.
-  intro Hs. apply N.eqb_neq in Hs.
-  unfold offset_sound, offset_finding, offset_token_class, page_offset.
-  destruct (parse_from from) as [z|]; [|split; reflexivity].
+  unfold offset_sound, page_offset.
+  destruct (parse_from from) as [z|]; [|left; reflexivity].
   destruct (z <? 0)%Z eqn:Eneg.
-  - apply Z.ltb_lt in Eneg.
-    assert (E1 : (z <=? Z.of_nat (length l))%Z = true) by (apply Z.leb_le; lia).
-    rewrite E1. cbn [andb]. split; [intros []|discriminate].
-  - apply Z.ltb_ge in Eneg. rewrite andb_false_r. rewrite Hs. cbn [negb andb].
-    destruct (z <=? Z.of_nat (length l))%Z eqn:Ele.
-    + split; [reflexivity|]. intros _.
-      destruct (N.to_nat size <? length (skipn (Z.to_nat z) l))%nat eqn:E.
-      * exists z, (N.to_nat size). split; reflexivity.
-      * exists z, (length (skipn (Z.to_nat z) l)). split; [reflexivity|]. symmetry. apply firstn_all.
-    + apply Z.leb_gt in Ele.
-      assert (Hskip : skipn (Z.to_nat z) l = []) by (apply skipn_all2; lia).
-      destruct l as [|x l'].
-      * cbn [length Nat.ltb Nat.leb]. split; [reflexivity|]. intros _.
-        destruct (N.to_nat size <? 0)%nat; exists z, 0%nat; split; reflexivity.
-      * assert (E0 : (0 <? length (x :: l'))%nat = true) by (apply Nat.ltb_lt; simpl; lia).
-        rewrite E0. split; [|discriminate]. intro H. exfalso.
-        assert (Hpos : (0 < N.to_nat size)%nat) by (apply N.eqb_neq in Hs; lia).
-        destruct (N.to_nat size <? length (x :: l'))%nat;
-          destruct H as (z' & n & Hz & Hi); inversion Hz; subst z';
-          rewrite Hskip, firstn_nil in Hi.
-        -- destruct (N.to_nat size); [lia|]. discriminate.
-        -- discriminate.
+  - right. exists z. split; [reflexivity|]. apply Z.ltb_lt. exact Eneg.
+  - apply Z.ltb_ge in Eneg. cbv zeta.
+    assert (Hskip : skipn (Z.to_nat (Z.min z (Z.of_nat (length l)))) l = skipn (Z.to_nat z) l).
+    { destruct (Z.leb_spec z (Z.of_nat (length l))) as [Hle|Hgt].
+      - rewrite Z.min_l by lia. reflexivity.
+      - rewrite Z.min_r by lia. rewrite Nat2Z.id, skipn_all. symmetry. apply skipn_all2. lia. }
+    rewrite Hskip.
+    destruct (negb (size =? 0) && (N.to_nat size <? length (skipn (Z.to_nat z) l))%nat).
+    + exists z, (N.to_nat size). split; reflexivity.
+    + exists z, (length (skipn (Z.to_nat z) l)). split; [reflexivity|]. symmetry. apply firstn_all.
 Qed.
-
-Theorem malformed_token_rejected_partial {A} (l : list A) size from : size <> 0 ->
-  offset_finding (length l) from = None -> offset_sound l size from.
-Proof. intros Hs H. apply offset_sound_iff; assumption. Qed.
 
 Definition five : list N := [0; 1; 2; 3; 4].
 
-(* F5 through the command layer: "99|" on five tuples, page size 2, returns the first page again
-   with next token "101|"; "-1|" panics *)
-Theorem malformed_token_rejected_refuted :
-  (exists (l : list N) size from, size <> 0 /\ ~ offset_sound l size from
-      /\ read_mem l (Z.of_N size) (from ++ [c_pipe]) = Page [0; 1] [49; 48; 49; 124])
-  /\ (exists (l : list N) size from, size <> 0 /\ ~ offset_sound l size from
-      /\ read_mem l (Z.of_N size) (from ++ [c_pipe]) = Panic).
-Proof.
-  split.
-  - exists five, 2, [57; 57]. split; [discriminate|]. split; [|vm_compute; reflexivity].
-    intro H. apply offset_sound_iff in H; [|discriminate]. vm_compute in H. discriminate.
-  - exists five, 2, [45; 49]. split; [discriminate|]. split; [|vm_compute; reflexivity].
-    intro H. apply offset_sound_iff in H; [|discriminate]. vm_compute in H. discriminate.
-Qed.
+(* History (not a claim about the code any more): before 3cab6a7 read() tested `from <= len`
+   before slicing -- "99|" on five tuples restarted from the first page, "-1|" panicked (F5). *)
+Definition page_offset_before_3cab6a7 {A} (l : list A) (size : N) (from : bytes) : outcome A :=
+  match parse_from from with
+  | None => Rejected EInternal
+  | Some z =>
+    let len := Z.of_nat (length l) in
+    if (z <=? len)%Z && (z <? 0)%Z then Panic
+    else
+      let m := if (z <=? len)%Z then skipn (Z.to_nat z) l else l in
+      if negb (size =? 0) && (N.to_nat size <? length m)%nat
+      then Page (firstn (N.to_nat size) m) (itoa (wrap64 (z + Z.of_N size)))
+      else Page m []
+  end.
 
 Definition clamp_sound {A} le (rows : list (bytes * A)) (size : N) (from : bytes) : Prop :=
   match page_clamp le rows size from with
